@@ -12,3 +12,13 @@ func verifCancelGate(pgid int, phase int) {
 		f(pgid, phase)
 	}
 }
+
+// VerifVMRead, when set, is called while a read of tracee memory holds the tracee's address in its request
+// (verification harness only: lets a garbage collection happen at exactly that instant).
+var VerifVMRead func()
+
+func verifVMRead() {
+	if f := VerifVMRead; f != nil {
+		f()
+	}
+}
